@@ -184,6 +184,34 @@ def genTuples (ls : List BLeaf) : Nat → Rng → List Val × Rng
   | 0, r => ([], r)
   | k + 1, r => let (fs, r) := genBs ls r; let (vs, r) := genTuples ls k r; (.tuple fs :: vs, r)
 
+/-- an update mask on the wire: 1 .. maxLen+1 blocks with a few set bits each, the TYPE field (index 2) present and naming an object kind -/
+def genUpdateMask (ctx : GenCtx) (r : Rng) : Val × Rng :=
+  let (nb, r) := r.below (ctx.maxLen + 1)
+  let rec blocks : Nat → Rng → List Nat × Rng
+    | 0, r => ([], r)
+    | k + 1, r =>
+      let (mode, r) := r.below 4
+      let (a, r) := r.below 32
+      let (b, r) := r.below 32
+      let (c, r) := r.below 4294967296
+      let m := if mode == 0 then 0 else if mode == 1 then 2 ^ a else if mode == 2 then 2 ^ a ||| 2 ^ b else c &&& 0x80010081
+      let (ms, r) := blocks k r
+      (m :: ms, r)
+  let (first, r) := r.below 8
+  let m0 := 4 ||| (first % 4) ||| (if first ≥ 4 then 2 ^ 31 else 0)      -- TYPE present; GUID words and the top bit sometimes
+  let (rest, r) := blocks nb r
+  let masks := m0 :: rest
+  let total := (masks.map popc32).sum
+  let rec vals : Nat → Rng → List Val × Rng
+    | 0, r => ([], r)
+    | k + 1, r => let (x, r) := r.below 4294967296; let (vs, r) := vals k r; (.nat x :: vs, r)
+  let (vs, r) := vals total r
+  let (ti, r) := r.below 7
+  let ty := [3, 7, 9, 25, 33, 65, 129].getD ti 3
+  let idx := (m0 % 2) + (m0 / 2) % 2
+  let vs := vs.zipIdx.map fun (v, i) => if i == idx then Val.nat ty else v
+  (.tuple [.list (masks.map Val.nat), .list vs], r)
+
 def genPrim (ctx : GenCtx) (name : String) (r : Rng) : Option (Val × Rng) :=
   match primKind name with
   | .achDone => let (k, r) := r.below (ctx.maxLen + 1); let (vs, r) := genSent achDoneFields k r; some (.list vs, r)
@@ -201,6 +229,7 @@ def genPrim (ctx : GenCtx) (name : String) (r : Rng) : Option (Val × Rng) :=
           | .tuple [.nat n] => .tuple [.nat (n &&& 0xFF3FE7FC)]
           | v => v
         some (.list (.tuple p :: ps), r)
+  | .updateMask => some (genUpdateMask ctx r)
   | .other => none
 
 def genLeaf (ctx : GenCtx) (id : Nat) (l : Leaf) (r : Rng) : Option (Val × Rng) :=
